@@ -5,8 +5,13 @@
 //   h3_named e2e <seed> <trials> <scratch-dir>   the real backend single-threaded (ManualBackendWorker) with a
 //                                          recording sink and the real JsonFileSink, 69 compile-time call sites
 //                                          (41 LOG_ templates, LOGJ_ with every argument count 0..26, one qualified name)
+//   h3_named faults <seed> <cases> <scratch-dir> a JsonFileSink subclass whose generate_json_message override throws after
+//                                          all / part of the record was appended, or whose before_write hook throws, on
+//                                          chosen statements: sequences of 4-8 statements with 0-3 faults (C10/C19:
+//                                          "a throwing JSON sink leaves nothing behind")
 //   h3_named replay <file> <scratch-dir>   lines "scan <hexT> [pieces]" and/or an e2e trace (e2e-init / san /
-//                                          cache-clear / log <idx> <args> / cache-dump)
+//                                          cache-clear / log <idx> <args> / cache-dump / jf-begin / jlog <idx> <args>
+//                                          <ok|gen:<k>|write> / jf-end)
 //
 // Output: "op => observation" lines for the Lean driver `named`, "ORACLE …" lines whenever the property itself fails
 // on the real code (reference = grammar structure of the generated template, fmtquill::format with positional
@@ -879,6 +884,56 @@ static auto const& cache_fmt(T const& v, long) { auto const& [a, b, c] = v; (voi
 template <typename T>
 static auto const& cache_keys(T const& v, long) { auto const& [a, b, c] = v; (void)a; (void)c; return b; }
 
+// ------------------------------------------------------------------------------------------------ throwing JSON sink
+static uint64_t g_reports = 0;      // error-notifier calls
+static std::string g_last_report;
+
+struct FaultPlan
+{
+  char kind{'o'}; // 'o' no fault, 'g' generate_json_message throws after k bytes of the record, 'w' the before_write hook throws
+  size_t k{0};
+  std::string show() const
+  {
+    if (kind == 'g') { return "gen:" + std::to_string(k); }
+    return kind == 'w' ? "write" : "ok";
+  }
+};
+static FaultPlan g_plan; // armed for the statement being processed
+static bool parse_plan(std::string const& w, FaultPlan& p)
+{
+  if (w == "ok") { p = FaultPlan{'o', 0}; }
+  else if (w == "write") { p = FaultPlan{'w', 0}; }
+  else if (w.rfind("gen:", 0) == 0) { p = FaultPlan{'g', static_cast<size_t>(std::strtoull(w.c_str() + 4, nullptr, 10))}; }
+  else { return false; }
+  return true;
+}
+
+/** a user JSON sink in the documented way: generate_json_message overridden, the base implementation called — and an
+    exception thrown after all of the record (k >= its size) or only its first k bytes were appended */
+struct FaultJsonSink : JsonFileSink
+{
+  using JsonFileSink::JsonFileSink;
+  uint64_t generate_calls{0};
+  void generate_json_message(MacroMetadata const* log_metadata, uint64_t log_timestamp, std::string_view thread_id,
+                             std::string_view thread_name, std::string const& process_id, std::string_view logger_name,
+                             LogLevel log_level, std::string_view log_level_description, std::string_view log_level_short_code,
+                             std::vector<std::pair<std::string, std::string>> const* named_args, std::string_view log_message,
+                             std::string_view log_statement, char const* message_format) override
+  {
+    ++generate_calls;
+    size_t const before = _json_message.size();
+    JsonFileSink::generate_json_message(log_metadata, log_timestamp, thread_id, thread_name, process_id, logger_name, log_level,
+                                        log_level_description, log_level_short_code, named_args, log_message, log_statement,
+                                        message_format);
+    if (g_plan.kind == 'g')
+    {
+      size_t const rec = _json_message.size() - before;
+      _json_message.resize(before + std::min(g_plan.k, rec)); // thrown half-way: only part of the record is there
+      throw std::runtime_error("h3 fault: generate_json_message");
+    }
+  }
+};
+
 struct E2E
 {
   ManualBackendWorker* mw{nullptr};
@@ -895,7 +950,12 @@ struct E2E
   {
     mw = Backend::acquire_manual_backend_worker();
     BackendOptions bo;
-    bo.error_notifier = [](std::string const&) { ++g_stats["backend_error_notifications"]; };
+    bo.error_notifier = [](std::string const& m)
+    {
+      ++g_stats["backend_error_notifications"];
+      ++g_reports;
+      g_last_report = m;
+    };
     mw->init(bo);
     bw = &detail::BackendManager::instance()._backend_worker;
     saved_check = bw->_options.check_printable_char;
@@ -947,6 +1007,143 @@ struct E2E
     json_off += s.size();
     return s;
   }
+  // ---- the throwing JSON sink: its own logger {recording sink, FaultJsonSink} --------------------------------
+  Logger* fault_lg{nullptr};
+  std::shared_ptr<Sink> rec_f_sp, fj_sp;
+  RecSink* rec_f{nullptr};
+  FaultJsonSink* fj{nullptr};
+  std::string fj_path;
+  size_t fj_off{0};
+  std::string jcase;
+  unsigned jstmt{0}, jfaults{0};
+  std::vector<std::string> jfaulted_markers;
+
+  void fault_init(std::string const& dir)
+  {
+    if (fault_lg) { return; }
+    rec_f_sp = Frontend::create_or_get_sink<RecSink>("rec_f");
+    rec_f = static_cast<RecSink*>(rec_f_sp.get());
+    fj_path = dir + "/h3_named_fault_" + std::to_string(getpid()) + ".json";
+    std::remove(fj_path.c_str());
+    FileSinkConfig cfg;
+    cfg.set_open_mode('w');
+    cfg.set_filename_append_option(FilenameAppendOption::None);
+    FileEventNotifier fen;
+    fen.before_write = [](std::string_view m) -> std::string
+    {
+      if (g_plan.kind == 'w') { throw std::runtime_error("h3 fault: before_write"); }
+      return std::string{m};
+    };
+    fj_sp = Frontend::create_or_get_sink<FaultJsonSink>(fj_path, cfg, fen);
+    fj = static_cast<FaultJsonSink*>(fj_sp.get());
+    PatternFormatterOptions pfo{"%(message)"};
+    pfo.add_metadata_to_multi_line_logs = false;
+    // the recording sink first: a throwing sink cuts off only the sinks after it
+    fault_lg = Frontend::create_or_get_logger("fault_lg", {rec_f_sp, fj_sp}, pfo, ClockSourceType::User, &clock);
+  }
+  std::string read_fault_new()
+  {
+    fj_sp->flush_sink();
+    std::ifstream in(fj_path, std::ios::binary);
+    in.seekg(static_cast<std::streamoff>(fj_off));
+    std::string s((std::istreambuf_iterator<char>(in)), std::istreambuf_iterator<char>());
+    fj_off += s.size();
+    return s;
+  }
+  void jf_begin(std::string const& dir, std::string const& cid)
+  {
+    fault_init(dir);
+    g_plan = FaultPlan{};
+    fj->_json_message.clear(); // every case starts from a sink that has nothing buffered
+    (void)read_fault_new();
+    jcase = cid;
+    jstmt = 0;
+    jfaults = 0;
+    jfaulted_markers.clear();
+    std::cout << "jf-begin " << cid << '\n';
+    ++g_stats["jf_cases"];
+  }
+  void jf_end()
+  {
+    std::cout << "jf-end " << jcase << " => stmts=" << jstmt << " faults=" << jfaults << '\n';
+    if (jfaults) { ++g_stats["jf_cases_with_fault"]; }
+  }
+  void jf_oracle(std::string const& what, int id, FaultPlan const& plan, std::string const& detail)
+  {
+    ++g_oracle;
+    std::cout << "ORACLE jf-" << what << " case=" << jcase << " stmt=" << jstmt << " idx=" << id << " fault=" << plan.show() << ' ' << detail << '\n';
+  }
+  /** one statement of a fault case; the statement's first string argument is its unique marker */
+  void jlog(int id, V const& v, FaultPlan const& plan)
+  {
+    Tpl const* t = find_tpl(id);
+    if (!t || !fault_lg)
+    {
+      std::cout << "# jlog: unknown template id " << id << " or no jf-begin\n";
+      return;
+    }
+    ++jstmt;
+    size_t const before = rec_f->recs.size();
+    uint64_t const rep0 = g_reports;
+    uint64_t const gen0 = fj->generate_calls;
+    g_plan = plan;
+    Logger* const saved = g_lg;
+    g_lg = fault_lg;
+    do_log(id, v);
+    g_lg = saved;
+    for (int k = 0; k < 4 && rec_f->recs.size() == before; ++k) { mw->poll_one(); }
+    g_plan = FaultPlan{};
+    std::string const wrote = read_fault_new();
+    uint64_t const reps = g_reports - rep0;
+    std::cout << "jlog " << id << ' ' << enc_v(v) << ' ' << plan.show() << ' ' << hex_or_dash(t->named);
+    ++g_stats["jf_statements"];
+    if (rec_f->recs.size() != before + 1)
+    {
+      std::cout << " pairs=- hdr=- => nrecs=" << (rec_f->recs.size() - before) << '\n';
+      jf_oracle("delivery", id, plan, "expected=1 got=" + std::to_string(rec_f->recs.size() - before));
+      return;
+    }
+    Rec const& r = rec_f->recs.back();
+    std::cout << " pairs=" << (r.has_pairs ? enc_keys(r.pairs) : std::string{"-"}) << " hdr=" << hex(std::to_string(r.ts)) << ','
+              << hex(r.file) << ',' << hex(r.line) << ',' << hex(r.thread_id) << ',' << hex(r.logger) << ',' << hex(r.level)
+              << " => wrote=" << hex_or_dash(wrote) << " reports=" << reps << '\n';
+    bool const faulted = plan.kind != 'o';
+    std::string const& marker = v.s[0];
+    if (faulted)
+    {
+      ++jfaults;
+      ++g_stats[plan.kind == 'w' ? "jf_faults_before_write" : (plan.k == 0 ? "jf_faults_generate_nothing_appended"
+                                                                 : (plan.k >= 100000 ? "jf_faults_generate_whole_record" : "jf_faults_generate_part_of_record"))];
+    }
+    // ---- independent oracles ------------------------------------------------------------------------
+    if (fj->generate_calls != gen0 + 1) { jf_oracle("generate-calls", id, plan, "expected=1 got=" + std::to_string(fj->generate_calls - gen0)); }
+    if (reps != (faulted ? 1u : 0u)) { jf_oracle("reports", id, plan, "expected=" + std::to_string(faulted ? 1 : 0) + " got=" + std::to_string(reps)); }
+    else if (faulted && g_last_report.find("h3 fault") == std::string::npos) { jf_oracle("report-text", id, plan, "got=" + hex_or_dash(g_last_report)); }
+    if (faulted)
+    {
+      if (!wrote.empty()) { jf_oracle("faulted-statement-wrote", id, plan, "wrote=" + hex(wrote)); }
+    }
+    else
+    {
+      size_t const nl = static_cast<size_t>(std::count(wrote.begin(), wrote.end(), '\n'));
+      if (wrote.empty() || wrote.front() != '{' || nl != 1 || wrote.back() != '\n' || wrote.size() < 3 || wrote[wrote.size() - 2] != '}')
+      {
+        jf_oracle("not-one-object-per-line", id, plan, "wrote=" + hex_or_dash(wrote));
+      }
+      else if (std::count(wrote.begin(), wrote.end(), '{') != 1 + std::count(t->named, t->named + std::strlen(t->named), '{'))
+      {
+        // the only other `{` of a line are those of the statement's own template (the "message" member)
+        jf_oracle("not-one-object-per-line", id, plan, "second-object-on-the-line wrote=" + hex(wrote));
+      }
+      if (!marker.empty() && wrote.find(marker) == std::string::npos) { jf_oracle("own-values-missing", id, plan, "marker=" + marker + " wrote=" + hex_or_dash(wrote)); }
+    }
+    for (auto const& m : jfaulted_markers)
+    {
+      if (!m.empty() && wrote.find(m) != std::string::npos) { jf_oracle("faulted-statement-appears-later", id, plan, "marker=" + m + " wrote=" + hex(wrote)); }
+    }
+    if (faulted) { jfaulted_markers.push_back(marker); }
+  }
+
   void log(int id, V const& v)
   {
     Tpl const* t = find_tpl(id);
@@ -1108,6 +1305,75 @@ static void run_e2e(uint64_t seed, unsigned trials, std::string const& dir)
   std::remove(e.json_path.c_str());
 }
 
+// ------------------------------------------------------------------------------------------------ fault stream
+static int const FAULT_IDS[] = {0, 1, 2, 6, 15, 16, 37, 39, 40, 51, 52, 53}; // named templates whose first argument is a string
+static char const* PLAIN[] = {"x", "hello world", "v1", "0123456789abcdef", "Zz_9", "a b c"};
+
+static V fault_v(Rng& r, std::string const& marker)
+{
+  V v{};
+  v.s[0] = marker;
+  for (int k = 1; k < 4; ++k) { v.s[k] = PLAIN[r.below(sizeof PLAIN / sizeof *PLAIN)]; }
+  for (auto& i : v.i) { i = static_cast<int>(r.below(100000)) - 50000; }
+  for (auto& d : v.d) { d = DVALS[r.below(6)]; }
+  return v;
+}
+static FaultPlan random_fault(Rng& r)
+{
+  switch (r.below(8))
+  {
+  case 0: return FaultPlan{'g', 0};
+  case 1: return FaultPlan{'g', 1 + static_cast<size_t>(r.below(3))};
+  case 2:
+  case 3: return FaultPlan{'g', static_cast<size_t>(r.below(90))};
+  case 4: return FaultPlan{'g', static_cast<size_t>(r.below(260))};
+  case 5: return FaultPlan{'g', 1000000};
+  default: return FaultPlan{'w', 0};
+  }
+}
+static void run_fault_case(E2E& e, Rng& r, std::string const& dir, unsigned cid, std::vector<FaultPlan> const& plans)
+{
+  e.jf_begin(dir, std::to_string(cid));
+  for (size_t k = 0; k < plans.size(); ++k)
+  {
+    int const id = FAULT_IDS[r.below(sizeof FAULT_IDS / sizeof *FAULT_IDS)];
+    e.jlog(id, fault_v(r, "mk" + std::to_string(cid) + "s" + std::to_string(k + 1) + "e"), plans[k]);
+  }
+  e.jf_end();
+}
+static void run_faults(uint64_t seed, unsigned ncases, std::string const& dir)
+{
+  build_table();
+  E2E e;
+  e.init(dir);
+  e.set_san(true);
+  Rng r(seed ^ 0xfa017ull);
+  unsigned cid = 0;
+  FaultPlan const ok{'o', 0};
+  // directed: every kind of fault at the first / a middle / two consecutive positions
+  FaultPlan const kinds[] = {{'g', 0}, {'g', 1}, {'g', 17}, {'g', 64}, {'g', 1000000}, {'w', 0}};
+  for (auto const& k : kinds)
+  {
+    run_fault_case(e, r, dir, cid++, {ok, k, ok, ok});
+    run_fault_case(e, r, dir, cid++, {k, ok, ok, ok});
+    for (auto const& k2 : kinds)
+    {
+      if (r.chance(50)) { run_fault_case(e, r, dir, cid++, {ok, k, k2, ok, ok}); }
+    }
+  }
+  run_fault_case(e, r, dir, cid++, {ok, ok, ok, ok});
+  for (unsigned c = 0; c < ncases; ++c)
+  {
+    unsigned const n = 4 + static_cast<unsigned>(r.below(5));
+    unsigned const nf = static_cast<unsigned>(r.below(4));
+    std::vector<FaultPlan> plans(n, ok);
+    for (unsigned f = 0; f < nf; ++f) { plans[r.below(n)] = random_fault(r); }
+    run_fault_case(e, r, dir, cid++, plans);
+  }
+  std::remove(e.json_path.c_str());
+  std::remove(e.fj_path.c_str());
+}
+
 static int run_replay(std::string const& file, std::string const& dir)
 {
   std::ifstream in(file);
@@ -1151,8 +1417,16 @@ static int run_replay(std::string const& file, std::string const& dir)
     else if (w[0] == "cache-clear") { e->cache_clear(); }
     else if (w[0] == "cache-dump") { e->cache_dump(); }
     else if (w[0] == "log" && w.size() >= 3) { e->log(std::atoi(w[1].c_str()), dec_v(w[2])); }
+    else if (w[0] == "jf-begin") { e->jf_begin(dir, w.size() >= 2 ? w[1] : std::string{"0"}); }
+    else if (w[0] == "jf-end") { e->jf_end(); }
+    else if (w[0] == "jlog" && w.size() >= 4)
+    {
+      FaultPlan p;
+      if (parse_plan(w[3], p)) { e->jlog(std::atoi(w[1].c_str()), dec_v(w[2]), p); }
+    }
   }
   if (e) { std::remove(e->json_path.c_str()); }
+  if (e && !e->fj_path.empty()) { std::remove(e->fj_path.c_str()); }
   return 0;
 }
 
@@ -1162,10 +1436,11 @@ int main(int argc, char** argv)
   std::string const mode = argc >= 2 ? argv[1] : "";
   if (mode == "scan" && argc >= 4) { run_scan(std::stoull(argv[2]), std::atoi(argv[3])); }
   else if (mode == "e2e" && argc >= 5) { run_e2e(std::stoull(argv[2]), static_cast<unsigned>(std::stoul(argv[3])), argv[4]); }
+  else if (mode == "faults" && argc >= 5) { run_faults(std::stoull(argv[2]), static_cast<unsigned>(std::stoul(argv[3])), argv[4]); }
   else if (mode == "replay" && argc >= 4) { run_replay(argv[2], argv[3]); }
   else
   {
-    std::cerr << "usage: h3_named scan <seed> <tier> | e2e <seed> <trials> <dir> | replay <file> <dir>\n";
+    std::cerr << "usage: h3_named scan <seed> <tier> | e2e <seed> <trials> <dir> | faults <seed> <cases> <dir> | replay <file> <dir>\n";
     return 2;
   }
   print_stats();
